@@ -34,7 +34,11 @@ ASSUMPTIONS = [
     'power-flow convergence with isolated buses is tested on the real code only (runtime residue)',
 ]
 CORPUS = os.path.join(C.ROOT, 'corpus', 'c12')
-DEP_ORDER = None
+# the harness's own copy of the dependency table (bus_deps of the pinned tree): the model and the oracle are fed
+# from THIS table, so a change of andes.core.connman.bus_deps shows up as a disagreement / oracle failure
+DEPS = [('ACLine', ['bus1', 'bus2']), ('ACShort', ['bus1', 'bus2']), ('FreqMeasurement', ['bus']), ('Interface', ['bus']),
+        ('Motor', ['bus']), ('PhasorMeasurement', ['bus']), ('StaticACDC', ['bus']), ('StaticGen', ['bus']),
+        ('StaticLoad', ['bus']), ('StaticShunt', ['bus'])]
 
 
 # ------------------------------------------------------------------ generators (ctx.rng only)
@@ -227,9 +231,8 @@ def slacks_now(ss):
 
 def groups_now(ss):
     """devices of the bus-dependent groups in bus_deps order: [nsrc, [[ [id,u,b...], ...] per model]]"""
-    from andes.core.connman import bus_deps
     out = []
-    for gname, srcs in bus_deps.items():
+    for gname, srcs in DEPS:
         grp = ss.__dict__[gname]
         ids = {}
         models = []
@@ -244,9 +247,8 @@ def groups_now(ss):
 
 
 def dev_status(ss):
-    from andes.core.connman import bus_deps
     out = []
-    for gname in bus_deps:
+    for gname, _ in DEPS:
         for mdl in ss.__dict__[gname].models.values():
             out += [int(x) for x in mdl.u.v]
     return out
@@ -393,6 +395,80 @@ def run_many(specs, procs=14):
         return [worker(s) for s in specs]
     with mp.get_context('fork').Pool(procs) as pool:
         return pool.map(worker, specs, chunksize=1)
+
+
+def tds_worker(job):
+    """a stock dynamic case with Toggles on lines: System.connectivity must be re-run at every switch time and
+    report the components of the statuses valid from that time on (tds.py: 'check system connectivity after a switching')"""
+    import andes
+    andes.config_logger(stream_level=50)
+    try:
+        ss = andes.load(andes.get_case('kundur/kundur_full.xlsx'), setup=False, no_output=True, default_config=True)
+        for k, (li, t) in enumerate(job['toggles']):
+            ss.add('Toggle', dict(idx='TG%d' % k, model='Line', dev=ss.Line.idx.v[li], t=t))
+        ss.setup()
+        if not ss.PFlow.run():
+            return job, {'skip': 'pflow'}
+        calls = []
+        orig = ss.connectivity
+
+        def wrap(info=True):
+            orig(info=info)
+            calls.append({'t': float(ss.dae.t), 'edges': edges_now(ss), 'obs': conn_obs(ss)})
+        ss.connectivity = wrap
+        ss.TDS.config.tf = job['tf']
+        ss.TDS.config.no_tqdm = 1
+        try:
+            import contextlib
+            import io
+            with contextlib.redirect_stdout(io.StringIO()):
+                ss.TDS.run()
+        except Exception as e:      # noqa
+            return job, {'n': int(ss.Bus.n), 'calls': calls, 'exc': err_kind(e), 'line_u': [int(x) for x in ss.Line.u.v]}
+        return job, {'n': int(ss.Bus.n), 'calls': calls, 'line_u': [int(x) for x in ss.Line.u.v], 'end': conn_obs(ss),
+                     'edges_end': edges_now(ss), 't_end': float(ss.dae.t)}
+    except Exception:      # noqa
+        return job, {'skip': traceback.format_exc()[-300:]}
+
+
+def check_tds(ctx, njobs):
+    import multiprocessing as mp
+    jobs = []
+    for _ in range(njobs):
+        k = ctx.rng.choice([1, 2, 3])
+        lines = ctx.rng.sample(range(15), k)
+        jobs.append({'toggles': [[li, round(0.1 * (i + 1), 3)] for i, li in enumerate(lines)], 'tf': round(0.1 * k + 0.05, 3)})
+    with mp.get_context('fork').Pool(min(4, len(jobs))) as pool:
+        res = pool.map(tds_worker, jobs, chunksize=1)
+    lines, exp = [], []
+    for job, r in res:
+        ctx.case(json.dumps(job), None)
+        if 'skip' in r:
+            ctx.count('tds:skipped')
+            continue
+        ctx.count('tds:runs')
+        ctx.count('tds:connectivity_calls', len(r['calls']))
+        case = {'tds': job}
+        for c in r['calls']:
+            if 'error' not in c['obs']:
+                for key, what in oracle_connectivity(r['n'], c['edges'], [], dict(c['obs'], nosw=list(range(len(c['obs']['sets']))), msw=[])):
+                    ctx.oracle_fail('tds-' + key, 'during TDS at t=%r: %s' % (c['t'], what), case)
+                lines.append(isl_line(r['n'], c['edges'], []))
+                exp.append(isl_impl(dict(c['obs'], nosw=[], msw=[])).split('|N=')[0])
+        if 'exc' in r:
+            ctx.count('tds:exception:' + r['exc'])
+            continue
+        for li, t in job['toggles']:
+            if t <= r['t_end'] and not any(c['t'] == t and c['edges'][li][2] == 0 for c in r['calls']):
+                ctx.oracle_fail('tds-no-recheck-after-switch', 'no connectivity check with the new status of line %d at the switch time %r' % (li, t), case)
+        iso, comps = components(r['n'], r['edges_end'])
+        if sorted(sorted(x) for x in r['end']['sets']) != comps or r['end']['islanded'] != iso:
+            ctx.oracle_fail('tds-stale-islands', 'after the run Bus.island_sets %r / islanded %r do not match the final statuses'
+                            % (r['end']['sets'], r['end']['islanded']), case)
+    outs = ctx.driver.ask(lines)
+    for ln, e, o in zip(lines, exp, outs):
+        if e != o.split('|N=')[0]:
+            ctx.disagree('connectivity-in-tds', ln, e, o)
 
 
 # ------------------------------------------------------------------ model lines
@@ -672,11 +748,16 @@ def check_specs(ctx, specs, with_model=True):
 
 
 def run(ctx):
+    from andes.core.connman import bus_deps
+    ctx.case(None, None)
+    if [(k, list(v)) for k, v in bus_deps.items()] != DEPS:
+        ctx.disagree('bus_deps-table', 'andes.core.connman.bus_deps', [(k, list(v)) for k, v in bus_deps.items()], DEPS)
     specs = corpus_specs()
     ctx.count('corpus', len(specs))
-    nsys = ctx.n(60, 600)
+    nsys = ctx.n(32, 400)
     specs += [gen_spec(ctx.rng, ctx.n(30, 40), ctx.n(10, 14)) for _ in range(nsys)]
     check_specs(ctx, specs)
+    check_tds(ctx, ctx.n(3, 16))
     ctx.cov['source_hashes'] = {
         'System.connectivity': C.hash_source(C.REPO + '/andes/system.py', 'System.connectivity'),
         'System.g_islands': C.hash_source(C.REPO + '/andes/system.py', 'System.g_islands'),
@@ -695,6 +776,11 @@ def search(ctx):
 
 
 def replay(ctx, rep):
+    if 'tds' in rep['case']:
+        job, r = tds_worker(rep['case']['tds'])
+        print('  ', {k: v for k, v in r.items() if k not in ('calls',)})
+        iso, comps = components(r['n'], r['edges_end']) if 'edges_end' in r else (None, None)
+        return 'end' in r and sorted(sorted(x) for x in r['end']['sets']) == comps and r['end']['islanded'] == iso
     spec = dict(rep['case'])
     spec.setdefault('patterns', [])
     spec.setdefault('scripts', [])
